@@ -133,13 +133,13 @@ def replay_scripts(chk, vh, L, F, ops, shards=8):
     validate(chk, vh, traces, "TLC-generated script (L=%d, faults<=%d)" % (L, F))
 
 
-def random_runs(chk, vh, shards, runs, target):
+def random_runs(chk, vh, shards, runs, target, max_profile=2):
     wd = vlib.workdir("c06-b")
     traces = []
     events = 0
     for s in range(shards):
         tp = os.path.join(wd, "rec-%d.ndjson" % s)
-        out = vlib.run_harness(vh, ["stream-record", chk.seed * 1000 + s, runs, target, tp]).stdout
+        out = vlib.run_harness(vh, ["stream-record", chk.seed * 1000 + s, runs, target, tp, max_profile]).stdout
         summ = json.loads(out.strip().split("\n")[-1])["summary"]
         events += summ["events"]
         chk.traces += summ["runs"]
